@@ -18,8 +18,8 @@ enum { EM_PIPE, EM_MERGED, EM_PARENT, NEM };
 static const char *const em_names[] = { "pipe", "stdout", "parent" };
 
 /* parent loop variants */
-enum { PV_SEQ3, PV_SEQ4096, PV_SEQ70000, PV_ZERO_FIRST, PV_POLL, PV_NONBLOCK, PV_SEQ1, NPV };
-static const char *const pv_names[] = { "seq-buf3", "seq-buf4096", "seq-buf70000", "zero-size-read-first", "poll-then-read", "nonblocking+poll", "seq-buf1" };
+enum { PV_SEQ3, PV_SEQ4096, PV_SEQ70000, PV_ZERO_FIRST, PV_POLL, PV_NONBLOCK, PV_SEQ1, PV_DRAIN, NPV };
+static const char *const pv_names[] = { "seq-buf3", "seq-buf4096", "seq-buf70000", "zero-size-read-first", "poll-then-read", "nonblocking+poll", "seq-buf1", "drain" };
 
 struct script_def {
   const char *fmt; /* %d replaced by the size under test */
@@ -163,6 +163,16 @@ static void after_read(int s, int size, int r, const uint8_t *buf, int api)
   }
   if (r == REPROC_EWOULDBLOCK) { vk_hit(CL_WOULDBLOCK); return; }
   vk_violation("C02", "read-error", key, "read on %s returned %s", sn, hx_errname(r));
+}
+
+static int c02_sink(REPROC_STREAM stream, const uint8_t *buffer, size_t size, void *context)
+{
+  (void) context;
+  if (stream != REPROC_STREAM_OUT && stream != REPROC_STREAM_ERR) return 0;
+  int s = (int) stream;
+  if (size == 0) { after_read(s, 1, REPROC_EPIPE, buffer, 0); return 0; }
+  after_read(s, (int) size, (int) size, buffer, 0);
+  return 0;
 }
 
 static int do_read(int s, int size)
@@ -316,7 +326,20 @@ static void c02_body(const struct c02cfg *c, int sched_bound)
 
   int bufsize = c->pv == PV_SEQ3 ? 3 : c->pv == PV_SEQ4096 ? 4096 : c->pv == PV_SEQ70000 ? 70000 : c->pv == PV_SEQ1 ? 1 : 64;
   int guard = 0;
-  if (c->pv == PV_POLL || c->pv == PV_NONBLOCK) {
+  if (c->pv == PV_DRAIN) {
+    reproc_sink sk = { c02_sink, NULL };
+    hx_last_api = vk_api_begin("drain()");
+    int dr = reproc_drain(P, sk, sk);
+    vk_api_end(dr);
+    vk_obs("drain=%s out=%u err=%u", hx_errname(dr), got[1], got[2]);
+    if (dr != 0) vk_violation("C02", "drain-result", key, "drain returned %s", hx_errname(dr));
+    for (int s = 1; s <= 2; s++) {
+      int is_pipe = s == 1 || em == EM_PIPE;
+      if (is_pipe && dr == 0 && (!eof_seen[s] || got[s] != total_written(s)))
+        vk_violation("C02", "bytes-lost", key, "%s: drain returned 0 with %u of %u bytes delivered (end of stream %s)", s == 1 ? "stdout" : "stderr", got[s],
+                     total_written(s), eof_seen[s] ? "reported" : "not reported");
+    }
+  } else if (c->pv == PV_POLL || c->pv == PV_NONBLOCK) {
     for (;;) {
       if (guard++ > 20000) { vk_violation("C02", "loop-does-not-end", key, "the poll/read loop did not terminate"); break; }
       reproc_event_source src = { P, REPROC_EVENT_OUT | REPROC_EVENT_ERR, 0 };
